@@ -216,6 +216,29 @@ fn responses() -> Vec<Response> {
             }));
         }
     }
+    // (appended last so that the indices of the entries above, which name the golden bytes, stay what they were)
+    let more_errs = [
+        // every other variant of the protocol's error type (each can travel inside a response)
+        PErr::UserDataDirectoryNotObtainable,
+        PErr::CouldNotObtainPortFromMultiAddr,
+        PErr::ParseRetryStrategyError,
+        PErr::CouldNotObtainDataDir,
+        PErr::RegisterNotFound(Box::new(ant_registers::RegisterAddress::new(xor_name::XorName([7; 32]), rigs::fixtures::bls_sk(1).public_key()))),
+        PErr::RegisterAlreadyClaimed(rigs::fixtures::bls_sk(2).public_key()),
+        PErr::RegisterRecordNotFound { holder: Box::new(a[1].clone()), key: Box::new(a[0].clone()) },
+        PErr::ScratchpadHexDeserializeFailed,
+        PErr::ScratchpadCipherTextFailed,
+        PErr::ScratchpadCipherTextInvalid,
+        PErr::RecordParsingFailed,
+        PErr::RecordExists(ant_protocol::PrettyPrintRecordKey::from(&libp2p::kad::RecordKey::new(&[1u8, 2, 3])).into_owned()),
+        PErr::RecordExists(ant_protocol::PrettyPrintRecordKey::from(&libp2p::kad::RecordKey::new(&[0xabu8; 32])).into_owned()),
+        PErr::RecordExists(ant_protocol::PrettyPrintRecordKey::from(&libp2p::kad::RecordKey::new(&[0u8; 0])).into_owned()),
+    ];
+    for e in &more_errs {
+        v.push(Response::Cmd(CmdResponse::Replicate(Err(e.clone()))));
+        v.push(Response::Query(QueryResponse::GetReplicatedRecord(Err(e.clone()))));
+        v.push(Response::Query(QueryResponse::GetStoreQuote { quote: Err(e.clone()), peer_address: a[0].clone(), storage_proofs: vec![(a[1].clone(), Err(e.clone()))] }));
+    }
     v
 }
 
